@@ -211,7 +211,7 @@ func TestC11(t *testing.T) {
 	r := ev.Open(t, "C11")
 	defer r.Close(t)
 	r.Rule("positions: every type implementing Clean() x every walked position (audience, attachment, icon, image, context, generator, attributedTo, preview, tag; object, actor, target for activities) " +
-		"and 18 off-walk decoy positions x {single embedded object, list} x embedded type {Object, Actor, Activity, Question, Collection, Place} x nesting depth 1..2, with bto/bcc planted at every level; " +
+		"and 18 off-walk decoy positions x {single embedded object, list} x embedded type {Object, Actor, Activity, Question, Collection, Place} x nesting depth 1..2 (at depth 1 also with the embedded value carrying its owner's id, and no id), with bto/bcc planted at every level; " +
 		"random: random values with bto/bcc planted on ~60% of all struct nodes anywhere. Oracle: reference walk from the statement - along it bto/bcc are empty on the Go value and absent from the parsed " +
 		"MarshalJSON output; with bto/bcc along the walk normalised, the value is bit-identical to its snapshot (decoys keep their private recipients). " +
 		"non-trivial = private recipients planted at depth >= 1 on the walk; distinct by canonical dump")
@@ -261,10 +261,25 @@ func TestC11(t *testing.T) {
 			for _, pos := range positions {
 				for _, asList := range []bool{false, true} {
 					for _, et := range embedTypes {
-						for depth := 1; depth <= 2; depth++ {
+						for depth := 1; depth <= 4; depth++ {
+							// depth 3 and 4 are depth 1 again with another identity of the embedded value: the id of the value that embeds it (a copy
+							// of the owner inside the owner, e.g. an actor attributed to itself), and no id at all
+							policy := ""
+							if depth > 2 {
+								if et != "Object" && et != "Actor" {
+									continue
+								}
+								policy = []string{"owner-id", "no-id"}[depth-3]
+							}
 							c := &vocab.Counter{}
 							top, tv := mkNode(c, gt)
 							inner, iv := mkNode(c, et)
+							switch policy {
+							case "owner-id":
+								iv.FieldByName("ID").SetString(tv.FieldByName("ID").String())
+							case "no-id":
+								iv.FieldByName("ID").SetString("")
+							}
 							if !setPos(tv, pos, inner, asList) {
 								continue
 							}
@@ -278,6 +293,9 @@ func TestC11(t *testing.T) {
 							}
 							total++
 							cell := fmt.Sprintf("%s.%s list=%v embed=%s depth=%d", gt, pos, asList, et, depth)
+							if policy != "" {
+								cell = fmt.Sprintf("%s.%s list=%v embed=%s depth=1 %s", gt, pos, asList, et, policy)
+							}
 							if !r.WantCell(cell) {
 								continue
 							}
